@@ -5,13 +5,17 @@ import NunavutVerif.Model.LexerFull
 Source modelled: `jinja2/parser.py`, `Parser.subparse` (the three branches `data` / `variable_begin` / `block_begin`,
 the `end_tokens` test that returns to the enclosing statement, and Nunavut's edit
 
-    def autoindent(rv, token):
-        prefix = token.value[:-3]
+    block_marker = environment.block_start_string + '*';  variable_marker = environment.variable_start_string + '*'
+    def autoindent(rv, token, marker):
+        prefix = token.value[:-len(marker)]
         if isinstance(rv, list): node = FilterBlock(body=rv, filter=Filter(None, 'lineprefix', [Const(prefix)]))
         else:                    node = Filter(rv, 'lineprefix', [Const(prefix)])
-    …  if token.value and token.value.endswith('*'): rv = autoindent(rv, token)                      # variable_begin
-    …  if token.value and token.value.endswith('*'): body.append(autoindent(rv if isinstance(rv, list) else [rv], token))
+    …  if token.value and token.value.endswith(variable_marker): rv = autoindent(rv, token, variable_marker)        # variable_begin
+    …  if token.value and token.value.endswith(block_marker): body.append(autoindent(rv if isinstance(rv, list) else [rv], token, block_marker))
 
+(the code with fix_marker_is_start_plus_star; as found the test was `token.value.endswith('*')` with `prefix = token.value[:-3]`, which
+takes every line statement of an environment whose `line_statement_prefix` ends in `*` for an auto-indent block — `Stmts.marker` of
+`coreStmtsBeforeFix`)
 ) on the token stream `Lexer.wrap` produces (`tokenize` of `Model/LexerFull.lean`).
 
 What stays abstract (upstream code, untouched by Nunavut, covered by the differential tie): expressions and the inside
@@ -98,18 +102,31 @@ inductive Node where
 and their end name -/
 structure Stmts where
   blockOf : Str → Option (List Str × Str)
+  /-- the marker test of `subparse` on the text of a begin token (`true`: variable begin, `false`: block begin) -/
+  marker : Bool → Str → Bool
+
+/-- `token.value and token.value.endswith('*')` — the marker test of the parser as found -/
+def endsStar (value : Str) : Bool := value.getLast? == some '*'
+
+/-- the marker test of the repaired parser: `token.value.endswith(variable_start_string + '*')` for a variable begin,
+`token.value.endswith(block_start_string + '*')` for a block begin (also one that `wrap` made out of a line statement) -/
+def markerTest (isVar : Bool) (value : Str) : Bool := if isVar then isVariableMarker value else isBlockMarker value
+
+/-- the repaired parser over a statement table -/
+def repaired (blockOf : Str → Option (List Str × Str)) : Stmts := ⟨blockOf, markerTest⟩
 
 /-- `if … [else …] endif`, `for … [else …] endfor`, `with … endwith`, `filter … endfilter` -/
-def coreStmts : Stmts where
-  blockOf n :=
-    if n = "if".toList then some (["else".toList], "endif".toList)
-    else if n = "for".toList then some (["else".toList], "endfor".toList)
-    else if n = "with".toList then some ([], "endwith".toList)
-    else if n = "filter".toList then some ([], "endfilter".toList)
-    else none
+def coreBlockOf (n : Str) : Option (List Str × Str) :=
+  if n = "if".toList then some (["else".toList], "endif".toList)
+  else if n = "for".toList then some (["else".toList], "endfor".toList)
+  else if n = "with".toList then some ([], "endwith".toList)
+  else if n = "filter".toList then some ([], "endfilter".toList)
+  else none
 
-/-- `token.value and token.value.endswith('*')` -/
-def endsStar (value : Str) : Bool := value.getLast? == some '*'
+def coreStmts : Stmts := repaired coreBlockOf
+
+/-- the parser as found: any begin token that ends in `*` -/
+def coreStmtsBeforeFix : Stmts := ⟨coreBlockOf, fun _ v => endsStar v⟩
 
 inductive ParseErr where
   /-- a block statement whose end tag is missing -/
@@ -120,8 +137,8 @@ inductive ParseErr where
   deriving DecidableEq, Repr
 
 /-- the node for a parsed statement: `body.append(autoindent([rv], token))` when the begin token ends in `*` -/
-def wrapStmt (value : Str) (n : Node) : Node :=
-  if endsStar value then .blockWrapped (autoindentPrefix value) [n] else n
+def wrapStmt (st : Stmts) (value : Str) (n : Node) : Node :=
+  if st.marker false value then .blockWrapped (autoindentPrefix value) [n] else n
 
 /-- `Parser.subparse(end_tokens)`.  Result: the body, the name of the end token it stopped at (`none` = end of the
 stream) and the items after that tag.  A begin token followed by one of the `ends` names returns to the enclosing
@@ -135,7 +152,7 @@ def subparse (st : Stmts) : Nat → List Str → List Item → Except ParseErr (
     | .error x => .error x
   | fuel + 1, ends, .var v e :: is =>
     match subparse st fuel ends is with
-    | .ok (ns, e', r) => .ok ((if endsStar v then .exprWrapped (autoindentPrefix v) e else .expr e) :: ns, e', r)
+    | .ok (ns, e', r) => .ok ((if st.marker true v then .exprWrapped (autoindentPrefix v) e else .expr e) :: ns, e', r)
     | .error x => .error x
   | fuel + 1, ends, .tag v name arg :: is =>
     if ends.contains name then .ok ([], some name, is)
@@ -143,7 +160,7 @@ def subparse (st : Stmts) : Nat → List Str → List Item → Except ParseErr (
       match st.blockOf name with
       | none =>
         match subparse st fuel ends is with
-        | .ok (ns, e, r) => .ok (wrapStmt v (.simple name arg) :: ns, e, r)
+        | .ok (ns, e, r) => .ok (wrapStmt st v (.simple name arg) :: ns, e, r)
         | .error x => .error x
       | some (mids, endName) =>
         match subparse st fuel (mids ++ [endName]) is with
@@ -152,7 +169,7 @@ def subparse (st : Stmts) : Nat → List Str → List Item → Except ParseErr (
         | .ok (body, some stop, r) =>
           if stop = endName then
             match subparse st fuel ends r with
-            | .ok (ns, e, r') => .ok (wrapStmt v (.stmt name arg body []) :: ns, e, r')
+            | .ok (ns, e, r') => .ok (wrapStmt st v (.stmt name arg body []) :: ns, e, r')
             | .error x => .error x
           else
             match subparse st fuel [endName] r with
@@ -160,7 +177,7 @@ def subparse (st : Stmts) : Nat → List Str → List Item → Except ParseErr (
             | .ok (_, none, _) => .error .unexpectedEof
             | .ok (alt, some _, r') =>
               match subparse st fuel ends r' with
-              | .ok (ns, e, r'') => .ok (wrapStmt v (.stmt name arg body alt) :: ns, e, r'')
+              | .ok (ns, e, r'') => .ok (wrapStmt st v (.stmt name arg body alt) :: ns, e, r'')
               | .error x => .error x
 
 /-- `Parser.parse`: `subparse()` without end tokens; a stray end tag is an unknown tag for `parse_statement` -/
@@ -239,10 +256,10 @@ def wrapperFreeL : List Node → Bool
   | n :: ns => n.wrapperFree && wrapperFreeL ns
 end
 
-/-- the begin token of this tag does not end in `*` -/
+/-- the begin token of this tag is not a marker for the repaired parser -/
 def Item.noStar : Item → Bool
   | .data _ => true
-  | .var v _ => !endsStar v
-  | .tag v _ _ => !endsStar v
+  | .var v _ => !markerTest true v
+  | .tag v _ _ => !markerTest false v
 
 end NunavutVerif.Lexer
